@@ -34,7 +34,7 @@ ASSUMPTIONS = [
 BOUNDS = {
     "quick": {"gates": "n<=4, every position", "measure/reset": "n<=2 all positions, determinism in {0,1,probabilistic}",
               "insert/remove/tensor": "n<=2 (n1+n2<=3)"},
-    "thorough": {"gates": "n<=8, every position", "measure/reset": "n<=3", "insert/remove/tensor": "n<=3"},
+    "thorough": {"gates": "n<=8 every position, n=12 and 16 selected positions", "measure/reset": "n<=3", "insert/remove/tensor": "n<=3"},
 }
 OUTSIDE = ("n above the bounds (hundreds of qubits, n=200 random walks); Stabilizer.apply_x_measurement (calls a "
            "function that does not exist); performance")
@@ -521,16 +521,18 @@ def plan(tier):
     jobs = []
     q = tier == "quick"
     # -- gates ------------------------------------------------------------------------------------------
-    gate_ns = [1, 2, 3, 4] if q else [1, 2, 3, 4, 6, 8]
+    gate_ns = [1, 2, 3, 4] if q else [1, 2, 3, 4, 6, 8, 12, 16]
     for n in gate_ns:
         for g in ("H", "P", "P_dag", "X", "Y", "Z"):
-            for p in range(n):
+            for p in (range(n) if n <= 8 else (0, 1, n // 2, n - 1)):
                 jobs.append((Gate(n=n, gate=g, pos=[p]), {}))
         for g in ("CNOT", "CZ", "CY"):
             for a in range(n):
                 for b in range(n):
                     if a != b:
                         if n > 4 and not (a in (0, n - 1) or b in (0, n - 1) or abs(a - b) == 1):
+                            continue
+                        if n > 8 and not ((a, b) in ((0, 1), (1, 0), (0, n - 1), (n - 1, 0), (n // 2, n - 1), (n - 1, n - 2))):
                             continue
                         jobs.append((Gate(n=n, gate=g, pos=[a, b]), {}))
     for n in ([2] if q else [2, 3]):
